@@ -51,6 +51,10 @@ def diff(exp, got, path='$'):
             if d:
                 return d
         return None
+    if isinstance(exp, tuple):
+        if not isinstance(got, tuple):
+            return '%s: expected tuple, got %s %r' % (path, type(got).__name__, got)
+        return diff(list(exp), list(got), path)
     if isinstance(exp, list):
         if not isinstance(got, list):
             return '%s: expected list, got %s' % (path, type(got).__name__)
